@@ -17,6 +17,7 @@ package referenceserver
 //                       and an io.Pipe writer and reads the result back with the envelope reader
 
 import (
+	"errors"
 	"bytes"
 	"context"
 	"encoding/json"
@@ -672,8 +673,8 @@ func TestVerifC17Enc(t *testing.T) {
 	var mu sync.Mutex
 	verifutil.ParallelFor(len(bodies), 16, func(i int) {
 		b := bodies[i]
-		for _, sink := range []string{"buffer", "bytewise", "pipe"} {
-			if only[i] != "" && only[i] != sink {
+		for _, sink := range []string{"buffer", "bytewise", "pipe", "afterfail"} {
+			if only[i] != "" && only[i] != sink && !(sink == "afterfail" && only[i] == "buffer") {
 				continue
 			}
 			for rep := 0; rep < reps; rep++ {
@@ -681,6 +682,16 @@ func TestVerifC17Enc(t *testing.T) {
 				var werr error
 				switch sink {
 				case "buffer":
+					var buf bytes.Buffer
+					werr = tab.encode(b, &buf)
+					got = buf.Bytes()
+				case "afterfail":
+					// history: an earlier body was written (on this goroutine) to a sink that broke part-way
+					// (a peer that disconnected); what is written next must not depend on that
+					for _, cut := range []int{3, 7, 40} {
+						_ = tab.encode(bodies[(i+1)%len(bodies)], &c17FailingWriter{left: cut})
+						_ = tab.encode(b, &c17FailingWriter{left: cut})
+					}
 					var buf bytes.Buffer
 					werr = tab.encode(b, &buf)
 					got = buf.Bytes()
@@ -713,7 +724,11 @@ func TestVerifC17Enc(t *testing.T) {
 				if werr != nil {
 					obs["err"] = werr.Error()
 				}
-				out.Put(map[string]any{"kind": "enc", "id": i, "fl": sink, "body": raws[i], "obs": obs})
+				fl := sink
+				if sink == "afterfail" {
+					fl = "buffer" // the observation is a plain buffer write; the failing writes before it are history
+				}
+				out.Put(map[string]any{"kind": "enc", "id": i, "fl": fl, "body": raws[i], "obs": obs})
 				mu.Lock()
 				n++
 				mu.Unlock()
@@ -721,4 +736,17 @@ func TestVerifC17Enc(t *testing.T) {
 		}
 	})
 	out.Put(map[string]any{"kind": "summary", "runs": n, "definitions": len(bodies)})
+}
+
+// c17FailingWriter accepts `left` bytes and then fails every write (a peer that went away).
+type c17FailingWriter struct{ left int }
+
+func (w *c17FailingWriter) Write(p []byte) (int, error) {
+	if len(p) <= w.left {
+		w.left -= len(p)
+		return len(p), nil
+	}
+	n := w.left
+	w.left = 0
+	return n, errors.New("verif: sink broke")
 }
